@@ -90,6 +90,22 @@ def mk_phi(alts):
     vals = [uniq[k] for k in sorted(uniq)]
     if len(vals) == 1:
         return vals[0]
+    # eta: `match x { Ok(v) => Ok(v), Err(e) => Err(e) }` (and the Option analogue) is x
+    if len(vals) == 2 and all(v[0] == "adt" and v[1] in ("std::result::Result", "std::option::Option") for v in vals) and vals[0][1] == vals[1][1] \
+            and {v[2] for v in vals} in ({"Ok", "Err"}, {"Some", "None"}):
+        src = None
+        ok = True
+        for v in vals:
+            if v[2] == "None":
+                continue
+            if len(v[3]) == 1 and v[3][0][1][0] == "field" and v[3][0][1][2] == "0" and v[3][0][1][1][0] == "variant" and v[3][0][1][1][2] == v[2]:
+                x = v[3][0][1][1][1]
+                if src is None or src == x:
+                    src = x
+                    continue
+            ok = False
+        if ok and src is not None:
+            return src
     return ("phi", tuple(vals))
 
 
@@ -141,9 +157,14 @@ def simplify(t):
                 return ("op", neg[a[1]], a[2])
         # orient comparisons: Gt(a,b) -> Lt(b,a), Ge(a,b) -> Le(b,a)
         if name == "Gt":
-            return ("op", "Lt", (args[1], args[0]))
+            return simplify(("op", "Lt", (args[1], args[0])))
         if name == "Ge":
-            return ("op", "Le", (args[1], args[0]))
+            return simplify(("op", "Le", (args[1], args[0])))
+        # unsigned zero tests: x < 1, x <= 0 are x == 0 (the crate compares counters and lengths only; no signed arithmetic)
+        if name == "Lt" and len(args) == 2 and args[1][0] == "const" and type(args[1][1]) is int and args[1][1] == 1 and args[0][0] != "const":
+            return simplify(("op", "Eq", (("const", 0), args[0])))
+        if name == "Le" and len(args) == 2 and args[1][0] == "const" and type(args[1][1]) is int and args[1][1] == 0 and args[0][0] != "const":
+            return simplify(("op", "Eq", (("const", 0), args[0])))
         return ("op", name, args)
     if k == "tfield":
         base, i = t[1], t[2]
@@ -725,9 +746,9 @@ class TermBuilder:
         for b in body:
             t = fn.blocks[b].term
             if t.k == "switch" and fn.blocks[b].stmts and fn.blocks[b].stmts[-1].k == "assign" and fn.blocks[b].stmts[-1].rv.k == "discr":
-                arms = {int(v): tg for v, tg in t.j["arms"]}
-                if arms.get(0) is not None and arms[0] not in body and 1 in arms:
-                    base = arms[1]
+                n_t, s_t = t.none_some_targets()
+                if n_t is not None and n_t not in body and s_t is not None:
+                    base = s_t
         if base is None:
             return None
         have = {repr(c): (c, tr) for c, tr in atomic_facts(fn, self.prog, pb, self)}
@@ -763,8 +784,7 @@ class TermBuilder:
                 blk = fn.blocks[b]
                 if blk.term.k != "switch":
                     return None
-                arms = {int(v): tgt for v, tgt in blk.term.j["arms"]}
-                if arms.get(0) != sx:
+                if blk.term.none_some_targets()[0] != sx:
                     return None
                 d = blk.term.discr
                 okd = False
@@ -983,7 +1003,48 @@ class TermBuilder:
                 args.append(before)
             else:
                 args.append(self.operand(a, cb, len(cblk.stmts)))
+        upd = self._apply_field_stores(t.callee(), argi, before, args)
+        if upd is not None:
+            return upd
         return ("call", "%s::out%d" % (t.callee(), argi + 1), tuple(args))
+
+    def _apply_field_stores(self, callee, argi, before, args):
+        """`let mut s = S { a, b }; s.reset_b();` — when the helper only performs unconditional whole-field stores through its
+        `&mut` parameter (no loops, no other calls taking it), the struct afterwards is the aggregate with those fields replaced"""
+        if before[0] != "adt" or self.prog is None or self.depth >= 3:
+            return None
+        g = self.prog.fn(callee)
+        if g is None or g.loop_heads() or len(g.blocks) > 12:
+            return None
+        p = argi + 1
+        nb = [(bi, blk) for bi, blk in enumerate(g.blocks) if not blk.cleanup]
+        if any(blk.term.k not in ("return", "goto", "drop", "assert", "call") for _, blk in nb):
+            return None
+        stores = {}
+        sub = {i + 1: a for i, a in enumerate(args)}
+        tbg = TermBuilder(g, self.prog, sub, self.depth + 1)
+        for bi, blk in nb:
+            if blk.term.k == "call" and any(a.place is not None and a.place.local == p for a in blk.term.args):
+                _closure_hook[0] = self._apply_closure_hook
+                return None
+            for si, st in enumerate(blk.stmts):
+                if st.k == "assign" and st.place.local == p and st.place.proj:
+                    pr = st.place.proj
+                    if len(pr) == 2 and pr[0]["k"] == "deref" and pr[1]["k"] == "field" and pr[1].get("name"):
+                        stores[pr[1]["name"]] = tbg.rvalue(st.rv, bi, si)
+                    else:
+                        _closure_hook[0] = self._apply_closure_hook
+                        return None
+                elif st.k == "assign" and st.rv.k in ("ref", "rawptr") and st.rv.place is not None and st.rv.place.local == p and st.rv.j.get("bk") == "mut":
+                    _closure_hook[0] = self._apply_closure_hook
+                    return None
+        _closure_hook[0] = self._apply_closure_hook
+        if not stores or any(x[0] in ("unknown", "rec", "clobber") for v in stores.values() for x in subterms(v)):
+            return None
+        names = {n for n, _ in before[3]}
+        if not set(stores) <= names:
+            return None
+        return ("adt", before[1], before[2], tuple((n, stores.get(n, v)) for n, v in before[3]))
 
     def _forwarded_store(self, p, bb, idx):
         """`*r` read after `*r = v` through the same `&mut` scalar pointer r obtained inside this function (an entry's get_mut, an
@@ -1246,11 +1307,18 @@ class TermBuilder:
             # (they stay uninterpreted symbols of the term) or in the table of local getters: crate-local functions that the
             # rule templates name explicitly (start, iter_for, scan, count, ...) are NOT inlined
             safe = INLINE_SAFE_CALLEES | FLOAT_METHODS | INT_METHODS | RNG_DRAWS
-            ok = (len(nb) <= 16 and not cf.loop_heads() and len(cf.exits()) == 1
-                  and all(b.term.k in ("return", "goto", "call", "assert", "drop") for b in nb)
+            PANICS = ("core::panicking::", "std::rt::panic_fmt", "std::rt::begin_panic", "std::fmt::Arguments::", "core::fmt::rt::Argument::")
+            def diverging_or_fmt(b):
+                d = b.term.callee_decl() or ""
+                return d.startswith(PANICS)
+            # straight-line helpers, or validating helpers whose only branches lead to a panic (the term of the single return is
+            # checked to be branch-free below)
+            ok = (len(nb) <= 40 and not cf.loop_heads() and len(cf.exits()) == 1
+                  and all(b.term.k in ("return", "goto", "call", "assert", "drop", "switch", "unreachable") for b in nb)
                   and no_param_stores()
                   and cf.name not in NO_INLINE
-                  and all((not b.term.k == "call") or (b.term.callee_name() in safe) or (not b.term.callee_is_local() and b.term.callee_name() in INLINE_SAFE_EXTERNAL) for b in nb))
+                  and all((not b.term.k == "call") or (b.term.callee_name() in safe) or diverging_or_fmt(b)
+                          or (not b.term.callee_is_local() and b.term.callee_name() in INLINE_SAFE_EXTERNAL) for b in nb))
             _INLINE_OK[key] = ok
         if not ok:
             return None
@@ -1258,6 +1326,8 @@ class TermBuilder:
         tb = TermBuilder(cf, self.prog, subst, self.depth + 1)
         r = tb.return_term()
         _closure_hook[0] = self._apply_closure_hook
+        if any(x[0] in ("unknown", "rec", "clobber", "phi") for x in subterms(r)) and any(b.term.k == "switch" for b in cf.blocks if not b.cleanup):
+            return None       # a helper that branches is only inlined when every return yields one and the same term
         if any(x[0] in ("unknown", "rec", "clobber") for x in subterms(r)):
             return None
         return r
@@ -1265,7 +1335,7 @@ class TermBuilder:
 
 IN_PLACE_PERMUTATIONS = {"sort", "sort_by", "sort_by_key", "sort_unstable", "sort_unstable_by", "sort_unstable_by_key", "sort_by_cached_key"}
 _INLINE_OK = {}
-INLINE_SAFE_EXTERNAL = {"from_elem", "zero", "one", "checked_mul", "checked_add", "checked_sub", "unwrap", "expect", "new", "with_capacity",
+INLINE_SAFE_EXTERNAL = {"from_elem", "zero", "one", "max", "min", "checked_mul", "checked_add", "checked_sub", "unwrap", "expect", "new", "with_capacity",
                         "default", "with_fill", "block_with_fill", "size_of"}
 NO_INLINE = {"start", "fingerprint", "hash", "iter_for", "h_i", "scan", "count", "sum", "calc_quotient_remainder", "insert_internal",
              "at_start_of_run", "has_run", "all_zero_intvector", "with_registers_and_hash", "with_params_and_hash", "with_params_and_hasher", "f", "fuse"}
